@@ -275,6 +275,8 @@ Inv_Final == Drained => SelectSeq(WFinal(w, Fin).viol, NotKnown) = <<>>
 ReidleEventually == [](pc = "NextWait" => <>(pc # "NextWait"))
 \* C08 liveness: once the connection has failed and everything was delivered, every request resolves
 AllResolveEventually == [](w.fault \in {"eof", "rerr"} => <>(Unresolved = {}))
+\* C01 liveness (fair loop, fair delivery, no faults): every issued request is eventually answered
+AllAnswered == [](Unresolved # {} => <>(Unresolved = {}))
 
 \* ---------------------------------------------------------------- constants for the configurations
 OKC == [fail |-> FALSE, pad |-> 0]
